@@ -160,7 +160,7 @@ class _Eq:
         return list(self.ranks)
 
 
-STACKS = [[], [0], [1], [2], [0, 0], [1, 0], [0, 2], [2, 2], [0, 0, 0], [1, 0, 2]]
+STACKS = [[], [0], [1], [2], [0, 0], [1, 0], [0, 2], [2, 2], [0, 0, 0], [1, 0, 2], [0] * 10]
 NST = len(STACKS)
 
 
@@ -198,7 +198,7 @@ def loop_order_twin(sm: int, sk: int, sn: int, perm: int) -> bool:
     """
     pre: 0 <= sm < NST and 0 <= sk < NST and 0 <= sn < NST
     pre: (NRK == 2 and sn == 0 and 0 <= perm < 2) or (NRK == 3 and 0 <= perm < 6)
-    pre: sm == 9 and sk == 4
+    pre: sm == 9 and sk == 4 and sn == 0
     post: not _
     """
     return loop_order(sm, sk, sn, perm)
